@@ -184,6 +184,22 @@ fn session(seed: u64, scenario: &str) -> Vec<Value> {
                     }
                 }));
             }
+            10 | 11 if scenario == "burst" => {
+                // many wake requests between two polls: they may coalesce, at buffer-size multiples too
+                let counts = [2usize, 63, 64, 65, 128, 192, 256, 1000, 1024, 1025];
+                let k = counts[rnd.below(counts.len())];
+                let waker = term.waker();
+                for _ in 0..k {
+                    ev(r#"{"ev":"wake_start"}"#.to_string());
+                    waker.wake().unwrap();
+                    ev(r#"{"ev":"wake_end"}"#.to_string());
+                }
+                pending_wakes = true;
+                let (kind, _) = do_poll(&mut term, Some(Duration::from_millis(30)));
+                if kind == "wake" {
+                    pending_wakes = false;
+                }
+            }
             8 => {
                 ev(r#"{"ev":"sig_raise","sig":28}"#.to_string());
                 unsafe { libc::raise(libc::SIGWINCH) };
